@@ -108,6 +108,6 @@ theorem ip6_parse_linkA (b : Bytes) (p : Ipv6) (i : Inner) (h : Ipv6.parse b = .
       refine ⟨hfb, protoNames_not_raw hm, ?_⟩
       intro y r hy hcov _
       simp only [LinkAll, nextA_cons_of_not_raw y r (coverable_not_raw y hcov)]
-      exact ⟨hfr, protoTier_of_name y (by rw [hy]; exact hm) hcov⟩
+      exact ⟨hfr, protoTier_of_name y name hy hm hcov⟩
 
 end Tins.Wire.ChainAll
